@@ -94,7 +94,7 @@ Section Sub.
     In s (byref E cf v call N hsup t) -> In s (subvalues v).
   Proof.
     induction v as [z | | z | l | k l xs IH | k l kvs IH | c l fs IH] using lv_ind';
-      intros call N hsup t; induction t as [| lk | | | t' IHt | o t' IHt | t' IHt | ts IHts | o kt IHk vt IHv | c0 | tw IHw | us IHus |] using ty_ind';
+      intros call N hsup t; induction t as [| lk | | | t' IHt | o t' IHt | t' IHt | ts IHts | o kt IHk vt IHv | c0 | tw IHw | us IHus | | | dd | kk tc IHc | rk IHrk rv IHrv | rs IHrs] using ty_ind';
       intros s Hs; try (apply IHw; exact Hs; fail);
       try (rewrite byref_union in Hs; revert Hs; apply pick_in with (Q := fun s => In s (subvalues _)); exact IHus);
       simpl in Hs; try contradiction;
@@ -112,6 +112,9 @@ Section Sub.
     - (* TTup *)
       apply in_zip_app in Hs. destruct Hs as [x [t [Hx Hs]]]. rewrite Forall_forall in IH.
       simpl. right. apply in_flat_map. exists x. split; [exact Hx | eapply IH; eauto].
+    - (* TComp *)
+      apply in_flat_map in Hs. destruct Hs as [x [Hx Hs]]. rewrite Forall_forall in IH.
+      simpl. right. apply in_flat_map. exists x. split; [exact Hx | eapply IH; eauto].
     - (* TMap *)
       destruct (inN N o && cf N kt && cf N vt).
       + destruct Hs as [<- | []]. apply subvalues_self.
@@ -119,6 +122,15 @@ Section Sub.
         destruct (IH (a, b) Hx) as [IHa IHb]. simpl in IHa, IHb.
         simpl. right. apply in_flat_map. exists (a, b). split; [exact Hx |].
         apply in_app_or in Hs. apply in_or_app. destruct Hs as [Hs | Hs]; [left; eapply IHa | right; eapply IHb]; eauto.
+    - (* TRMap *)
+      apply in_flat_map in Hs. destruct Hs as [[a b] [Hx Hs]]. rewrite Forall_forall in IH.
+      destruct (IH (a, b) Hx) as [IHa IHb]. simpl in IHa, IHb.
+      simpl. right. apply in_flat_map. exists (a, b). split; [exact Hx |].
+      apply in_app_or in Hs. apply in_or_app. destruct Hs as [Hs | Hs]; [left; eapply IHa | right; eapply IHb]; eauto.
+    - (* TRec *)
+      apply in_zip_app in Hs. destruct Hs as [[a b] [t [Hx Hs]]]. rewrite Forall_forall in IH.
+      destruct (IH (a, b) Hx) as [IHa IHb]. simpl in IHa, IHb.
+      simpl. right. apply in_flat_map. exists (a, b). split; [exact Hx |]. apply in_or_app. right. eapply IHb; eauto.
     - (* TDC *)
       apply in_zip_app in Hs. destruct Hs as [x [t [Hx Hs]]]. rewrite Forall_forall in IH.
       simpl. right. apply in_flat_map. exists x. split; [exact Hx | eapply IH; eauto].
@@ -147,7 +159,10 @@ Fixpoint anyfree (t: ty) : bool :=
   | TMap _ kt vt => anyfree kt && anyfree vt
   | TWrap t' => anyfree t'
   | TUnion ts => forallb anyfree ts
-  | TNone => true
+  | TNone | TLit | TAbsent _ => true
+  | TComp _ t' => anyfree t'
+  | TRMap kt vt => anyfree kt && anyfree vt
+  | TRec ts => forallb anyfree ts
   end.
 
 Definition default_env (E: env) : Prop :=
@@ -176,7 +191,7 @@ Section Default.
     anyfree t = true -> byref E cf v None [] hsup t = [].
   Proof.
     induction v as [z | | z | l | k l xs IH | k l kvs IH | c l fs IH] using lv_ind';
-      intros hsup t; induction t as [| lk | | | t' IHt | o t' IHt | t' IHt | ts IHts | o kt IHk vt IHv | c0 | tw IHw | us IHus |] using ty_ind';
+      intros hsup t; induction t as [| lk | | | t' IHt | o t' IHt | t' IHt | ts IHts | o kt IHk vt IHv | c0 | tw IHw | us IHus | | | dd | kk tc IHc | rk IHrk rv IHrv | rs IHrs] using ty_ind';
       intros Ha; try (apply IHw; exact Ha; fail); simpl in Ha; try discriminate Ha;
       try (rewrite byref_union; apply pick_nil with (p := anyfree); [exact IHus | exact Ha]; fail);
       try reflexivity;
@@ -185,8 +200,13 @@ Section Default.
     - simpl. apply flat_map_nil. eapply Forall_impl; [| exact IH]. intros x Hx. apply Hx. exact Ha.
     - simpl. apply zip_app_nil with (p := anyfree); [| exact Ha].
       eapply Forall_impl; [| exact IH]. intros x Hx t Ht. apply Hx. exact Ht.
+    - simpl. apply flat_map_nil. eapply Forall_impl; [| exact IH]. intros x Hx. apply Hx. exact Ha.
     - simpl. apply andb_prop in Ha. destruct Ha as [Hk Hv]. apply flat_map_nil.
       eapply Forall_impl; [| exact IH]. intros [a b] [Hx1 Hx2]. simpl in *. now rewrite Hx1, Hx2.
+    - simpl. apply andb_prop in Ha. destruct Ha as [Hk Hv]. apply flat_map_nil.
+      eapply Forall_impl; [| exact IH]. intros [a b] [Hx1 Hx2]. simpl in *. now rewrite Hx1, Hx2.
+    - simpl. apply zip_app_nil with (p := anyfree); [| exact Ha].
+      eapply Forall_impl; [| exact IH]. intros [a b] [Hx1 Hx2] t Ht. simpl in *. apply Hx2. exact Ht.
     - simpl. destruct Hdef as [Hf Hn].
       assert (Hc: (if hsup && c_sup (e_ct E c0) then @None dialect else None) = None) by (destruct (hsup && c_sup (e_ct E c0)); reflexivity).
       rewrite Hc. unfold effN, first_nc. rewrite Hn, Hf.
@@ -212,7 +232,7 @@ Section DefaultUnpack.
   Lemma anyref_anyfree_nil : forall w t, anyfree t = true -> anyref E w t = [].
   Proof.
     induction w as [z | | z | l | k l xs IH | k l kvs IH | c l fs IH] using lv_ind';
-      intros t; induction t as [| lk | | | t' IHt | o t' IHt | t' IHt | ts IHts | o kt IHk vt IHv | c0 | tw IHw | us IHus |] using ty_ind';
+      intros t; induction t as [| lk | | | t' IHt | o t' IHt | t' IHt | ts IHts | o kt IHk vt IHv | c0 | tw IHw | us IHus | | | dd | kk tc IHc | rk IHrk rv IHrv | rs IHrs] using ty_ind';
       intros Ha; try (apply IHw; exact Ha; fail); simpl in Ha; try discriminate Ha;
       try (rewrite anyref_union; apply pick_nil with (p := anyfree); [exact IHus | exact Ha]; fail);
       try reflexivity;
@@ -221,9 +241,14 @@ Section DefaultUnpack.
     - simpl. apply flat_map_nil. eapply Forall_impl; [| exact IH]. intros x Hx. apply Hx. exact Ha.
     - simpl. apply zip_app_nil with (p := anyfree); [| exact Ha].
       eapply Forall_impl; [| exact IH]. intros x Hx t Ht. apply Hx. exact Ht.
+    - simpl. apply flat_map_nil. eapply Forall_impl; [| exact IH]. intros x Hx. apply Hx. exact Ha.
     - simpl. apply andb_prop in Ha. destruct Ha as [Hk Hv]. apply flat_map_nil.
       eapply Forall_impl; [| exact IH]. intros [a b] [Hx1 Hx2]. simpl in *. now rewrite Hx1, Hx2.
     - simpl. apply zip_app_nil with (p := anyfree); [| apply Hany].
+      eapply Forall_impl; [| exact IH]. intros [a b] [Hx1 Hx2] t Ht. simpl in *. apply Hx2. exact Ht.
+    - simpl. apply andb_prop in Ha. destruct Ha as [Hk Hv]. apply flat_map_nil.
+      eapply Forall_impl; [| exact IH]. intros [a b] [Hx1 Hx2]. simpl in *. now rewrite Hx1, Hx2.
+    - simpl. apply zip_app_nil with (p := anyfree); [| exact Ha].
       eapply Forall_impl; [| exact IH]. intros [a b] [Hx1 Hx2] t Ht. simpl in *. apply Hx2. exact Ht.
   Qed.
 End DefaultUnpack.
@@ -242,7 +267,7 @@ Qed.
 Lemma anyref_sub E : forall w t s, In s (anyref E w t) -> In s (subvalues w).
 Proof.
   induction w as [z | | z | l | k l xs IH | k l kvs IH | c l fs IH] using lv_ind';
-    intros t; induction t as [| lk | | | t' IHt | o t' IHt | t' IHt | ts IHts | o kt IHk vt IHv | c0 | tw IHw | us IHus |] using ty_ind';
+    intros t; induction t as [| lk | | | t' IHt | o t' IHt | t' IHt | ts IHts | o kt IHk vt IHv | c0 | tw IHw | us IHus | | | dd | kk tc IHc | rk IHrk rv IHrv | rs IHrs] using ty_ind';
     intros s Hs; try (apply IHw; exact Hs; fail);
     try (rewrite anyref_union in Hs; revert Hs; apply pick_in with (Q := fun s => In s (subvalues _)); exact IHus);
     simpl in Hs; try contradiction;
@@ -255,6 +280,16 @@ Proof.
     simpl. right. apply in_flat_map. exists x. split; [exact Hx | eapply IH; eauto].
   - apply in_zip_app in Hs. destruct Hs as [x [t [Hx Hs]]]. rewrite Forall_forall in IH.
     simpl. right. apply in_flat_map. exists x. split; [exact Hx | eapply IH; eauto].
+  - apply in_flat_map in Hs. destruct Hs as [x [Hx Hs]]. rewrite Forall_forall in IH.
+    simpl. right. apply in_flat_map. exists x. split; [exact Hx | eapply IH; eauto].
+  - apply in_flat_map in Hs. destruct Hs as [[a b] [Hx Hs]]. rewrite Forall_forall in IH.
+    destruct (IH (a, b) Hx) as [IHa IHb]. simpl in IHa, IHb.
+    simpl. right. apply in_flat_map. exists (a, b). split; [exact Hx |].
+    apply in_app_or in Hs. apply in_or_app. destruct Hs as [Hs | Hs]; [left; eapply IHa | right; eapply IHb]; eauto.
+  - apply in_zip_app in Hs. destruct Hs as [[a b] [t [Hx Hs]]]. rewrite Forall_forall in IH.
+    destruct (IH (a, b) Hx) as [IHa IHb]. simpl in IHa, IHb.
+    simpl. right. apply in_flat_map. exists (a, b). split; [exact Hx |].
+    apply in_or_app. right. eapply IHb; eauto.
   - apply in_flat_map in Hs. destruct Hs as [[a b] [Hx Hs]]. rewrite Forall_forall in IH.
     destruct (IH (a, b) Hx) as [IHa IHb]. simpl in IHa, IHb.
     simpl. right. apply in_flat_map. exists (a, b). split; [exact Hx |].
@@ -286,13 +321,17 @@ Fixpoint optfree (t: ty) : bool :=
   | TMap _ kt vt => optfree kt && optfree vt
   | TWrap t' => optfree t'
   | TUnion ts => forallb optfree ts
-  | TNone => true
+  | TNone | TAbsent _ => true
+  | TLit => false          (* like Optional: the packer is not the bare name although no conversion is needed *)
+  | TComp _ t' => optfree t'
+  | TRMap kt vt => optfree kt && optfree vt
+  | TRec ts => forallb optfree ts
   end.
 Definition optfree_env (E: env) : Prop := forall c, forallb optfree (E.(e_ct) c).(c_fields) = true.
 
 Lemma ident_conv_free E N t : optfree t = true -> ident E N t = conv_free E N t.
 Proof.
-  unfold ident. induction t as [| k | | | t IHt | o t IHt | t IHt | ts IHts | o t1 IHt1 t2 IHt2 | c0 | tw IHw | us IHus |] using ty_ind';
+  unfold ident. induction t as [| k | | | t IHt | o t IHt | t IHt | ts IHts | o t1 IHt1 t2 IHt2 | c0 | tw IHw | us IHus | | | dd | kk tc IHc | rk IHrk rv IHrv | rs IHrs] using ty_ind';
     intros H; simpl in H; try discriminate H; simpl; try reflexivity; try (apply IHw; exact H; fail).
   - destruct (e_lp E k); destruct k; reflexivity.
   - unfold seq_expr. rewrite <- (IHt H). destruct (is_id (cp E N false t)).
@@ -327,7 +366,7 @@ Section OptFree.
     optfree t = true -> byref E (ident E) v call N hsup t = byref E (conv_free E) v call N hsup t.
   Proof.
     induction v as [z | | z | l | k l xs IH | k l kvs IH | c l fs IH] using lv_ind';
-      intros call N hsup t; induction t as [| lk | | | t' IHt | o t' IHt | t' IHt | ts IHts | o kt IHk vt IHv | c0 | tw IHw | us IHus |] using ty_ind';
+      intros call N hsup t; induction t as [| lk | | | t' IHt | o t' IHt | t' IHt | ts IHts | o kt IHk vt IHv | c0 | tw IHw | us IHus | | | dd | kk tc IHc | rk IHrk rv IHrv | rs IHrs] using ty_ind';
       intros Ha; try (apply IHw; exact Ha; fail); simpl in Ha; try discriminate Ha;
       try (rewrite !byref_union; apply pick_ext with (p := optfree); [exact IHus | exact Ha]; fail);
       try reflexivity.
@@ -336,11 +375,20 @@ Section OptFree.
     - simpl. apply flat_map_ext_Forall. eapply Forall_impl; [| exact IH]. intros x Hx. apply Hx. exact Ha.
     - simpl. apply zip_app_ext with (p := optfree); [| exact Ha].
       eapply Forall_impl; [| exact IH]. intros x Hx t Ht. apply Hx. exact Ht.
+    - (* TComp *)
+      simpl. apply flat_map_ext_Forall. eapply Forall_impl; [| exact IH]. intros x Hx. apply Hx. exact Ha.
     - simpl. apply andb_prop in Ha. destruct Ha as [Hk Hv].
       rewrite (ident_conv_free E N kt Hk), (ident_conv_free E N vt Hv).
       destruct (inN N o && conv_free E N kt && conv_free E N vt); [reflexivity |].
       apply flat_map_ext_Forall. eapply Forall_impl; [| exact IH]. intros [a b] [Hx1 Hx2]. simpl in *.
       now rewrite Hx1, Hx2.
+    - (* TRMap *)
+      simpl. apply andb_prop in Ha. destruct Ha as [Hk Hv].
+      apply flat_map_ext_Forall. eapply Forall_impl; [| exact IH]. intros [a b] [Hx1 Hx2]. simpl in *.
+      now rewrite Hx1, Hx2.
+    - (* TRec *)
+      simpl. apply zip_app_ext with (p := optfree); [| exact Ha].
+      eapply Forall_impl; [| exact IH]. intros [a b] [Hx1 Hx2] t Ht. simpl in *. apply Hx2. exact Ht.
     - simpl. apply zip_app_ext with (p := optfree); [| apply Hof].
       eapply Forall_impl; [| exact IH]. intros x Hx t Ht. apply Hx. exact Ht.
   Qed.
@@ -383,7 +431,7 @@ Section DecodeDialect.
   Lemma run_unpack_dialect_free : forall w t n, run_unpack E w (cu t) n = run_unpack E' w (cu t) n.
   Proof.
     induction w as [z | | z | l | k l xs IH | k l kvs IH | c l fs IH] using lv_ind';
-      intros t; induction t as [| lk | | | t' IHt | o t' IHt | t' IHt | ts IHts | o kt IHk vt IHv | c0 | tw IHw | us IHus |] using ty_ind';
+      intros t; induction t as [| lk | | | t' IHt | o t' IHt | t' IHt | ts IHts | o kt IHk vt IHv | c0 | tw IHw | us IHus | | | dd | kk tc IHc | rk IHrk rv IHrv | rs IHrs] using ty_ind';
       intros n; try reflexivity; try (apply IHw; fail);
       try (cbn [cu]; rewrite !ru_opt; first [reflexivity | apply IHt]; fail);
       try (cbn [cu]; rewrite !ru_union;
@@ -401,6 +449,9 @@ Section DecodeDialect.
       rewrite !Hz.
       rewrite (zip_st_ext (fun x t => run_unpack E x (cu t)) (fun x t => run_unpack E' x (cu t)) xs); [reflexivity |].
       eapply Forall_impl; [| exact IH]. intros x Hx e m. apply Hx.
+    - (* TComp *)
+      simpl. rewrite (map_st_ext (fun x => run_unpack E x (cu tc)) (fun x => run_unpack E' x (cu tc)) xs); [reflexivity |].
+      eapply Forall_impl; [| exact IH]. intros x Hx m. apply Hx.
     - simpl.
       match goal with |- (let (ys, n') := map_st ?f kvs ?m in _) = (let (ys, n') := map_st ?g kvs ?m in _) =>
         rewrite (map_st_ext f g kvs) end; [reflexivity |].
@@ -410,6 +461,25 @@ Section DecodeDialect.
       match goal with |- (let (ys, n') := zip_st ?f ?ts kvs ?m in _) = (let (ys, n') := zip_st ?g ?ts kvs ?m in _) =>
         rewrite (zip_st_ext f g kvs) end; [reflexivity |].
       eapply Forall_impl; [| exact IH]. intros [k0 x] [Hk Hx] e m. simpl in *. apply Hx.
+    - (* TRMap *)
+      simpl.
+      match goal with |- (let (ys, n') := map_st ?f kvs ?m in _) = (let (ys, n') := map_st ?g kvs ?m in _) =>
+        rewrite (map_st_ext f g kvs) end; [reflexivity |].
+      eapply Forall_impl; [| exact IH]. intros [k0 x] [Hk Hx] m. simpl in *.
+      rewrite Hk. destruct (run_unpack E' k0 (cu rk) m) as [k' m1]. rewrite Hx. reflexivity.
+    - (* TRec *)
+      simpl.
+      assert (Hz: forall E0 m,
+                 zip_st (fun (kv: lv * lv) e' m => let (k0, x) := kv in
+                           let (y0, m1) := run_unpack E0 x e' m in ((k0, y0), m1)) (map cu rs) kvs m
+                 = zip_st (fun (kv: lv * lv) t m => let (k0, x) := kv in
+                           let (y0, m1) := run_unpack E0 x (cu t) m in ((k0, y0), m1)) rs kvs m).
+      { clear. intros E0. revert rs. induction kvs as [| [k0 x] r IHr]; intros rs m; destruct rs as [| t ts]; simpl; try reflexivity.
+        destruct (run_unpack E0 x (cu t) m) as [y m1]. now rewrite IHr. }
+      rewrite !Hz.
+      match goal with |- (let (ys, n') := zip_st ?f rs kvs ?m in _) = (let (ys, n') := zip_st ?g rs kvs ?m in _) =>
+        rewrite (zip_st_ext f g kvs) end; [reflexivity |].
+      eapply Forall_impl; [| exact IH]. intros [k0 x] [Hk Hx] e m. simpl in *. rewrite Hx. reflexivity.
   Qed.
 End DecodeDialect.
 
